@@ -46,6 +46,14 @@ impl RuntimeState {
         self.ping_timeout = None;
     }
 
+    /// Recompute the send quota after an acknowledgement. A resumed session can hold more
+    /// in-flight publishes than this connection's Receive Maximum allows; nothing new may be
+    /// accepted until they have drained below it.
+    pub(super) fn restore_send_quota(&mut self, inflight: usize) {
+        let inflight = inflight.min(u16::MAX as usize) as u16;
+        self.send_quota = self.max_send_quota.saturating_sub(inflight);
+    }
+
     pub(super) fn note_outbound_activity(&mut self, now: Instant) {
         self.next_ping = self
             .keepalive_send_interval()
